@@ -129,6 +129,12 @@ func (s *SingleTypeSubstitutionMangler[F, T]) subVal(t reflect.Type, mVal reflec
 	if !subArray {
 		return mVal, false
 	}
+	if mVal.Kind() != t.Kind() {
+		// not the shape Mangle produced (e.g. a later mangler's Unmangle
+		// handed back a slice for a pointer-to-slice field): leave it
+		// alone and let the Transformer report the type mismatch.
+		return mVal, false
+	}
 	switch t.Kind() {
 	case reflect.Pointer:
 		nElem, subPtr := s.subVal(t.Elem(), mVal.Elem())
